@@ -750,6 +750,27 @@ fn first_words(s: &str, n: usize) -> Vec<String> {
     out
 }
 
+/// the only known SQL function called in the text (None if there is none or more than one)
+pub fn single_function(t: &Txt) -> Option<String> {
+    if t.len() > 20_000 {
+        return None;
+    }
+    let toks = tokenize(&t.render());
+    let mut found: Option<String> = None;
+    for w in toks.windows(2) {
+        if w[1] == "(" {
+            let up = w[0].to_ascii_uppercase();
+            if FUNCS.iter().any(|f| f.0 == up) && !AGGS.contains(&up.as_str()) {
+                match &found {
+                    Some(f) if *f != up => return None,
+                    _ => found = Some(up),
+                }
+            }
+        }
+    }
+    found
+}
+
 /// statement kind for signatures, decided from the leading keywords of the text
 pub fn stmt_kind(t: &Txt) -> String {
     // only the head of the text matters; huge inputs are not rendered completely
@@ -1182,7 +1203,7 @@ pub const FUNCS: &[(&str, &str)] = &[
 const SIZE_FUNCS: &[&str] = &["REPEAT", "LPAD", "RPAD", "SPACE", "FORMAT", "ROUND", "TRUNCATE", "TRUNC", "BIN", "CONV", "MAKEDATE", "SEC_TO_TIME", "FROM_DAYS"];
 const AGGS: &[&str] = &["COUNT", "SUM", "AVG", "MIN", "MAX"];
 const WINFUNCS: &[&str] = &["ROW_NUMBER", "RANK", "DENSE_RANK", "NTILE", "LAG", "LEAD", "FIRST_VALUE", "LAST_VALUE", "NTH_VALUE", "PERCENT_RANK", "CUME_DIST", "SUM", "AVG", "COUNT", "MIN", "MAX"];
-const BINOPS: &[&str] = &["+", "-", "*", "/", "%", "^", "||", "=", "<>", "!=", "<", "<=", ">", ">=", "AND", "OR", "&", "|", "#", "<<", ">>", "->", "->>", "#>", "#>>", "@>", "<@", "&&", "<->", "<#>", "<=>"];
+const BINOPS: &[&str] = &["+", "-", "*", "/", "%", "^", "||", "=", "<>", "!=", "<", "<=", ">", ">=", "AND", "OR", "&", "|", "<<", ">>", "->", "->>", "#>", "#>>", "@>", "<@", "&&", "<->", "<#>", "<=>", "+", "-", "*", "/", "=", "<", "AND", "OR"];
 const TYPES: &[&str] = &[
     "INTEGER", "INT", "BIGINT", "SMALLINT", "TINYINT", "SERIAL", "BIGSERIAL", "SMALLSERIAL", "REAL", "FLOAT", "DOUBLE", "DOUBLE PRECISION", "DECIMAL", "DECIMAL(10,2)", "DECIMAL(0,0)", "DECIMAL(4294967295, 4294967295)",
     "NUMERIC(5)", "VARCHAR", "VARCHAR(10)", "VARCHAR(0)", "VARCHAR(4294967295)", "CHARACTER VARYING(5)", "CHAR", "CHAR(3)", "TEXT", "BLOB", "BOOLEAN", "BOOL", "DATE", "DATETIME", "TIME", "TIMESTAMP", "TIMESTAMP WITH TIME ZONE",
@@ -1407,7 +1428,7 @@ impl<'r> G<'r> {
         let mut args = vec![];
         for (k, c) in classes.iter().enumerate() {
             // the count/precision arguments of size-producing functions are never in the ambiguous band
-            let a = if is_size && *c != 't' && (k > 0 || classes.len() == 1) { self.size_count() } else { self.arg(*c) };
+            let a = if is_size && *c != 't' && (k > 0 || !sig.starts_with('t')) { self.size_count() } else { self.arg(*c) };
             args.push(a);
         }
         if is_size {
@@ -1498,7 +1519,7 @@ impl<'r> G<'r> {
             0..=13 => self.literal(),
             14..=33 => self.column(None),
             34..=51 => {
-                let op = self.p(BINOPS);
+                let op = if self.odd(5) { "#" } else { self.p(BINOPS) };
                 let (l, r) = (self.expr(), self.expr());
                 format!("{} {} {}", l, op, r)
             }
@@ -1564,7 +1585,7 @@ impl<'r> G<'r> {
                     match self.r.below(5) {
                         0 => format!("{}EXISTS ({})", pick!(self, "", "NOT "), q),
                         1 => format!("{} {}IN ({})", self.expr(), pick!(self, "", "NOT "), q),
-                        2 => format!("{} {} {} ({})", self.expr(), pick!(self, "=", "<", ">="), pick!(self, "ANY", "ALL", "SOME"), q),
+                        2 if self.chaos > 0 => format!("{} {} {} ({})", self.expr(), pick!(self, "=", "<", ">="), pick!(self, "ANY", "ALL", "SOME"), q),
                         _ => format!("({})", q),
                     }
                 } else {
@@ -1576,7 +1597,7 @@ impl<'r> G<'r> {
                 let f = self.p(AGGS);
                 let e = self.arg('n');
                 let filt = if self.ch(15) { format!(" FILTER (WHERE {})", self.arg('b')) } else { String::new() };
-                format!("{}({}{}){}", f, pick!(self, "", "", "DISTINCT ", "ALL "), e, filt)
+                format!("{}({}{}){}", f, if self.odd(20) { "ALL " } else { pick!(self, "", "", "DISTINCT ") }, e, filt)
             }
             93..=94 => self.window(),
             95 => {
@@ -1729,7 +1750,7 @@ if self.odd(10) { pick!(self, "t1", "select", "\"al ias\"", "ü", "\"\"").to_str
             _ => {}
         }
         let grouped = self.ch(22);
-        let ncols = 1 + self.r.below(4);
+        let ncols = 1 + self.r.below(3);
         let mut cols = vec![];
         for _ in 0..ncols {
             let c = match self.r.below(14) {
@@ -1787,7 +1808,7 @@ if self.odd(10) { pick!(self, "t1", "select", "\"al ias\"", "ü", "\"\"").to_str
                 let q = self.select(false);
                 self.depth += 1;
                 self.scope = saved;
-                let q = if self.ch(15) { format!("({})", q) } else { q };
+                let q = if self.odd(15) { format!("({})", q) } else { q };
                 s.push_str(&format!(" {}{} {}", pick!(self, "UNION", "UNION", "INTERSECT", "EXCEPT"), pick!(self, "", "", " ALL", " DISTINCT"), q));
             }
         }
@@ -2116,8 +2137,8 @@ if self.odd(10) { pick!(self, "t1", "select", "\"al ias\"", "ü", "\"\"").to_str
     }
     pub fn misc(&mut self) -> String {
         match self.r.below(30) {
-            0..=3 => format!("BEGIN{}{}{}", pick!(self, "", "", " TRANSACTION", " WORK"), pick!(self, "", "", "", " ISOLATION LEVEL READ UNCOMMITTED", " ISOLATION LEVEL READ COMMITTED", " ISOLATION LEVEL REPEATABLE READ", " ISOLATION LEVEL SERIALIZABLE", " ISOLATION LEVEL nosuch", " ISOLATION LEVEL"), pick!(self, "", "", " READ ONLY", " READ WRITE", ", READ ONLY")),
-            4 | 5 => format!("COMMIT{}", pick!(self, "", "", " TRANSACTION", " WORK", " AND CHAIN", " x")),
+            0..=3 => format!("BEGIN{}{}{}", if self.odd(20) { " WORK" } else { pick!(self, "", "", " TRANSACTION") }, pick!(self, "", "", "", " ISOLATION LEVEL READ UNCOMMITTED", " ISOLATION LEVEL READ COMMITTED", " ISOLATION LEVEL REPEATABLE READ", " ISOLATION LEVEL SERIALIZABLE", " ISOLATION LEVEL nosuch", " ISOLATION LEVEL"), pick!(self, "", "", " READ ONLY", " READ WRITE", ", READ ONLY")),
+            4 | 5 => format!("COMMIT{}", if self.odd(30) { pick!(self, " TRANSACTION", " WORK", " AND CHAIN", " x") } else { "" }),
             6 | 7 => format!("ROLLBACK{}", pick!(self, "", "", " TRANSACTION", " TO sp1", " TO SAVEPOINT sp1", " TO SAVEPOINT nosuch", " TO", " TO SAVEPOINT", " TO \"\"", " TO SAVEPOINT ü")),
             8 | 9 => format!("SAVEPOINT {}", pick!(self, "sp1", "sp1", "sp2", "\"\"", "select", "", "ü", "sp1 sp2", "1")),
             10 => format!("RELEASE {}{}", pick!(self, "", "SAVEPOINT "), pick!(self, "sp1", "sp2", "nosuch", "", "\"\"")),
@@ -2334,7 +2355,7 @@ fn gen_gram(r: &mut Rng, case: &mut Case) {
     for _ in 0..n {
         let mut sql = {
             let mut g = G::new(r);
-            g.depth = 2 + g.r.below(3) as u32;
+            g.depth = 1 + g.r.below(3) as u32;
             g.statement()
         };
         let kind = stmt_kind(&Txt::lit(sql.clone()));
@@ -3363,13 +3384,23 @@ impl<'a> Exec<'a> {
             }
         }
     }
+    /// "<statement kind>|<the only SQL function named in the text, if there is exactly one>"; resolved by `fail`
     fn kind_of(&self, sql: &Txt) -> String {
-        match &self.case.kind {
-            Some(k) => k.clone(),
-            None => stmt_kind(sql),
-        }
+        format!("{}|{}", stmt_kind(sql), single_function(sql).unwrap_or_default())
     }
     fn fail(&self, step: usize, sub: &str, entry: &str, kind: String, p: (String, String)) -> Failure {
+        // a panic inside src/sql/functions is keyed by the function (when the text names exactly one), anything
+        // else by the statement kind: one root cause -> one signature, whichever generator found it
+        let kind = match kind.split_once('|') {
+            Some((stmt, f)) => {
+                if !f.is_empty() && p.0.starts_with("sql/functions/") {
+                    format!("fn:{}", f)
+                } else {
+                    stmt.to_string()
+                }
+            }
+            None => kind,
+        };
         Failure { step, sub: sub.to_string(), entry: entry.to_string(), kind, site: p.0, msg: p.1, in_thread: self.in_thread }
     }
     /// run one step on the handle vector; Err = a panic escaped from the library
@@ -4221,14 +4252,49 @@ fn limit_address_space(bytes: u64) {
 
 const CHILD_AS_LIMIT: u64 = 4 << 30;
 
+/// do not outlive the parent (a hung case would otherwise stay around if the parent is killed); a kernel-side
+/// death signal instead of a polling thread, so that a blocked worker really has every thread asleep
 fn die_with_parent() {
-    let ppid = unsafe { libc::getppid() };
-    std::thread::spawn(move || loop {
-        std::thread::sleep(std::time::Duration::from_millis(500));
-        if unsafe { libc::getppid() } != ppid {
-            std::process::exit(3);
+    unsafe {
+        libc::prctl(libc::PR_SET_PDEATHSIG, libc::SIGKILL as libc::c_ulong);
+    }
+}
+
+/// Where the per-case database copies live.  Every case copies ~28 files, opens, syncs and drops a database; on the
+/// shared ext4 disk the ~16 fsync/msync calls per case cost 10-20 ms each under load (measured: 400 ms per case), so
+/// the copies go to the memory-backed /dev/shm/tv-c22-<pid>/ when that exists (removed at the end of the run; stale
+/// directories of dead runs are swept at start).  TV_C22_NO_SHM=1 keeps them under /verif/scratch/c22-<pid>/.
+fn work_root_for(pid: u32) -> PathBuf {
+    let shm = Path::new("/dev/shm");
+    if std::env::var("TV_C22_NO_SHM").is_err() && shm.is_dir() {
+        shm.join(format!("tv-c22-{}", pid))
+    } else {
+        PathBuf::from(format!("{}/scratch/c22-{}/work", report::VERIF_DIR, pid))
+    }
+}
+
+fn sweep_stale_work_roots() {
+    if let Ok(rd) = std::fs::read_dir("/dev/shm") {
+        for e in rd.flatten() {
+            let name = e.file_name().to_string_lossy().to_string();
+            if let Some(pid) = name.strip_prefix("tv-c22-").and_then(|p| p.parse::<u32>().ok()) {
+                if !Path::new(&format!("/proc/{}", pid)).exists() {
+                    let _ = std::fs::remove_dir_all(e.path());
+                }
+            }
         }
-    });
+    }
+}
+
+/// work directory of a child: below the parent's work root (TV_C22_WORK_ROOT) or an own one (standalone)
+fn child_work_dir(jobdir: &Path) -> (PathBuf, Option<PathBuf>) {
+    match std::env::var("TV_C22_WORK_ROOT") {
+        Ok(r) if !r.is_empty() => (PathBuf::from(r).join(jobdir.file_name().map(|n| n.to_os_string()).unwrap_or_default()), None),
+        _ => {
+            let own = work_root_for(std::process::id());
+            (own.join("w"), Some(own))
+        }
+    }
 }
 
 fn ensure_bases(root: &Path) -> Result<(), String> {
@@ -4260,7 +4326,8 @@ fn child_main(a: &Args) -> i32 {
     let standalone = r.get(5).is_none();
     let root = r.get(5).map(PathBuf::from).unwrap_or_else(|| jobdir.clone());
     let deadline: u64 = r.get(6).and_then(|s| s.parse().ok()).unwrap_or(0);
-    let _ = std::fs::create_dir_all(jobdir.join("work"));
+    let (work, own_root) = child_work_dir(&jobdir);
+    fresh_dir(&work);
     if standalone {
         let _ = std::fs::remove_file(jobdir.join("res.jsonl"));
         let _ = std::fs::remove_dir_all(jobdir.join("shrunk"));
@@ -4273,7 +4340,7 @@ fn child_main(a: &Args) -> i32 {
     die_with_parent();
     let bb = BlackBox::open(&jobdir.join("bb"));
     let out = std::fs::OpenOptions::new().create(true).append(true).open(jobdir.join("res.jsonl")).expect("result file");
-    let env = make_env(a, &root, &jobdir.join("work"));
+    let env = make_env(a, &root, &work);
     let h = std::thread::Builder::new()
         .stack_size(CHILD_STACK)
         .name("c22-cases".into())
@@ -4292,8 +4359,11 @@ fn child_main(a: &Args) -> i32 {
             }
         }
         println!("child: unit={} start={} executed={}", r[1], start, done);
-        let _ = std::fs::remove_dir_all(jobdir.join("work"));
         let _ = std::fs::remove_dir_all(jobdir.join("shrunk"));
+    }
+    let _ = std::fs::remove_dir_all(&work);
+    if let Some(o) = own_root {
+        let _ = std::fs::remove_dir_all(o);
     }
     0
 }
@@ -4341,7 +4411,8 @@ fn one_main(a: &Args) -> i32 {
     let jobdir = PathBuf::from(&r[2]);
     let standalone = r.get(3).is_none();
     let root = r.get(3).map(PathBuf::from).unwrap_or_else(|| jobdir.clone());
-    let _ = std::fs::create_dir_all(jobdir.join("work"));
+    let (work, own_root) = child_work_dir(&jobdir);
+    fresh_dir(&work);
     if standalone {
         if let Err(e) = ensure_bases(&root) {
             eprintln!("cannot build the base database: {}", e);
@@ -4351,7 +4422,7 @@ fn one_main(a: &Args) -> i32 {
     limit_address_space(CHILD_AS_LIMIT);
     die_with_parent();
     let bb = BlackBox::open(&jobdir.join("bb"));
-    let env = Env { seed: a.seed, tier: a.tier.clone(), root, work: jobdir.join("work"), corpus: Corpus { files: vec![], total: 0, distinct: 0 } };
+    let env = Env { seed: a.seed, tier: a.tier.clone(), root, work: work.clone(), corpus: Corpus { files: vec![], total: 0, distinct: 0 } };
     let jd = jobdir.clone();
     let h = std::thread::Builder::new()
         .stack_size(CHILD_STACK)
@@ -4368,7 +4439,12 @@ fn one_main(a: &Args) -> i32 {
             v
         })
         .expect("spawn worker");
-    match h.join() {
+    let r = h.join();
+    let _ = std::fs::remove_dir_all(&work);
+    if let Some(o) = own_root {
+        let _ = std::fs::remove_dir_all(o);
+    }
+    match r {
         Ok(v) => {
             if standalone {
                 println!("{}", serde_json::to_string_pretty(&v).unwrap_or_default());
@@ -4391,6 +4467,104 @@ fn proc_cpu_s(pid: u32) -> Option<f64> {
     let stime: f64 = f.get(12)?.parse().ok()?;
     Some((ut + stime) / 100.0)
 }
+
+/// resident set size of a process in bytes
+fn proc_rss(pid: u32) -> u64 {
+    std::fs::read_to_string(format!("/proc/{}/status", pid))
+        .ok()
+        .and_then(|s| s.lines().find(|l| l.starts_with("VmRSS:")).and_then(|l| l.split_whitespace().nth(1).and_then(|x| x.parse::<u64>().ok())))
+        .unwrap_or(0)
+        * 1024
+}
+
+/// a worker killed at a CPU limit while holding this much memory (on a <= 200-row database) is a memory blow-up that
+/// had not reached RLIMIT_AS yet: classified as alloc_abort, like the death it was heading for
+const BLOWUP_RSS: u64 = 1 << 30;
+
+/// true if every thread of the process sleeps (state S): nothing runnable, nothing in disk wait
+fn proc_all_sleeping(pid: u32) -> bool {
+    let rd = match std::fs::read_dir(format!("/proc/{}/task", pid)) {
+        Ok(r) => r,
+        Err(_) => return false,
+    };
+    let mut n = 0;
+    for e in rd.flatten() {
+        let st = match std::fs::read_to_string(e.path().join("stat")) {
+            Ok(s) => s,
+            Err(_) => continue,
+        };
+        let state = st.rfind(')').and_then(|p| st[p + 1..].trim_start().chars().next()).unwrap_or('R');
+        if state != 'S' {
+            return false;
+        }
+        n += 1;
+    }
+    n > 0
+}
+
+/// watches one worker: heartbeat, CPU burned inside the current call, time spent with every thread asleep
+struct Watch {
+    last: (u64, u64),
+    last_change: std::time::Instant,
+    cpu_mark: f64,
+    /// window in which (nearly) every sample found all threads asleep and the CPU clock (nearly) standing still:
+    /// (start, cpu at start, samples asleep, samples awake)
+    asleep_since: Option<(std::time::Instant, f64, u32, u32)>,
+}
+
+enum Verdict {
+    Fine,
+    /// CPU seconds burned inside one call
+    Cpu(f64),
+    /// seconds during which no thread of the worker was runnable (a lock that nobody will release)
+    Blocked(f64),
+}
+
+impl Watch {
+    fn new() -> Watch {
+        Watch { last: (u64::MAX, u64::MAX), last_change: std::time::Instant::now(), cpu_mark: 0.0, asleep_since: None }
+    }
+    fn poll(&mut self, pid: u32, bb: &Option<(u64, u64, u64, String, bool, u64)>, cpu_limit: f64, blocked_limit: f64) -> Verdict {
+        let cur = bb.as_ref().map(|b| (b.0, b.1)).unwrap_or((u64::MAX, 0));
+        if cur != self.last {
+            self.last = cur;
+            self.last_change = std::time::Instant::now();
+            self.cpu_mark = proc_cpu_s(pid).unwrap_or(0.0);
+            self.asleep_since = None;
+            return Verdict::Fine;
+        }
+        if self.last_change.elapsed().as_secs_f64() < 1.5 {
+            return Verdict::Fine;
+        }
+        let cpu = proc_cpu_s(pid).unwrap_or(self.cpu_mark);
+        let burned = cpu - self.cpu_mark;
+        if burned > cpu_limit {
+            return Verdict::Cpu(burned);
+        }
+        // On a loaded machine a thread that wakes for microseconds (timers) can be caught runnable, so a few awake
+        // samples are tolerated; what must hold is: < 10% awake samples and < 2% CPU use over the whole window.
+        let asleep = proc_all_sleeping(pid);
+        let (t, c, mut na, mut nw) = self.asleep_since.unwrap_or((std::time::Instant::now(), cpu, 0, 0));
+        if asleep {
+            na += 1;
+        } else {
+            nw += 1;
+        }
+        let d = t.elapsed().as_secs_f64();
+        if (na + nw >= 20 && nw * 10 > na + nw) || cpu - c > 0.3 + 0.02 * d || (na + nw < 20 && nw > 3) {
+            self.asleep_since = None;
+            return Verdict::Fine;
+        }
+        self.asleep_since = Some((t, c, na, nw));
+        if d > blocked_limit && na + nw >= 20 {
+            return Verdict::Blocked(d);
+        }
+        Verdict::Fine
+    }
+}
+
+const SOFT_BLOCKED_S: f64 = 8.0;
+const HARD_BLOCKED_S: f64 = 40.0;
 
 fn classify_death(status: &std::process::ExitStatus, stderr: &str) -> String {
     use std::os::unix::process::ExitStatusExt;
@@ -4421,8 +4595,8 @@ enum OneResult {
     Finished(Value, f64),
     /// (class, label, stderr tail)
     Died(String, String, Vec<String>),
-    /// (label, cpu seconds burned inside the call)
-    Expired(String, f64),
+    /// (label, seconds, blocked?) blocked = every thread asleep for that long; else CPU seconds burned inside the call
+    Expired(String, f64, bool, u64),
     Spawn(String),
 }
 
@@ -4432,10 +4606,15 @@ struct OneRunner {
     tier: String,
     seed: u64,
     counter: AtomicU64,
+    /// no new investigation run is started after this instant (keeps the tier's wall budget)
+    stop_at: std::time::Instant,
 }
 
 impl OneRunner {
-    fn run(&self, case: &Case, cpu_limit_s: f64, wall_limit_s: f64) -> OneResult {
+    fn out_of_time(&self) -> bool {
+        std::time::Instant::now() > self.stop_at
+    }
+    fn run(&self, case: &Case, cpu_limit_s: f64, blocked_limit_s: f64) -> OneResult {
         use std::process::{Command, Stdio};
         let n = self.counter.fetch_add(1, Ordering::Relaxed);
         let dir = self.root.join(format!("one-{}", n));
@@ -4469,9 +4648,7 @@ impl OneRunner {
             Err(e) => return OneResult::Spawn(e.to_string()),
         };
         let t0 = std::time::Instant::now();
-        let mut last = (u64::MAX, u64::MAX);
-        let mut last_change = std::time::Instant::now();
-        let mut cpu_mark = 0.0;
+        let mut watch = Watch::new();
         let res = loop {
             match child.try_wait() {
                 Ok(Some(st)) => {
@@ -4486,17 +4663,20 @@ impl OneRunner {
                 }
                 Ok(None) => {
                     let bb = read_blackbox(&dir.join("bb"));
-                    let cur = bb.as_ref().map(|b| (b.0, b.1)).unwrap_or((u64::MAX, 0));
-                    if cur != last {
-                        last = cur;
-                        last_change = std::time::Instant::now();
-                        cpu_mark = proc_cpu_s(child.id()).unwrap_or(0.0);
-                    }
-                    let burned = proc_cpu_s(child.id()).map(|c| c - cpu_mark).unwrap_or(0.0);
-                    if burned > cpu_limit_s || last_change.elapsed().as_secs_f64() > wall_limit_s {
-                        let _ = child.kill();
-                        let _ = child.wait();
-                        break OneResult::Expired(bb.map(|b| b.3).unwrap_or_default(), burned);
+                    match watch.poll(child.id(), &bb, cpu_limit_s, blocked_limit_s) {
+                        Verdict::Fine => {}
+                        Verdict::Cpu(burned) => {
+                            let rss = proc_rss(child.id());
+                            let _ = child.kill();
+                            let _ = child.wait();
+                            break OneResult::Expired(bb.map(|b| b.3).unwrap_or_default(), burned, false, rss);
+                        }
+                        Verdict::Blocked(d) => {
+                            let rss = proc_rss(child.id());
+                            let _ = child.kill();
+                            let _ = child.wait();
+                            break OneResult::Expired(bb.map(|b| b.3).unwrap_or_default(), d, true, rss);
+                        }
                     }
                 }
                 Err(e) => break OneResult::Spawn(e.to_string()),
@@ -4514,14 +4694,16 @@ fn label_step(label: &str) -> Option<usize> {
 }
 
 /// entry/kind of the step a label points at
-fn attribute(case: &Case, label: &str) -> (String, String, usize) {
+fn attribute(case: &Case, label: &str, by_function: bool) -> (String, String, usize) {
     match label_step(label) {
         Some(i) if i < case.steps.len() => {
             let st = &case.steps[i];
-            let kind = match (&case.kind, st.sql()) {
-                (Some(k), Some(_)) => k.clone(),
-                (None, Some(t)) => stmt_kind(t),
-                _ => st.op_name().to_string(),
+            let kind = match st.sql() {
+                Some(t) => match single_function(t) {
+                    Some(f) if by_function => format!("fn:{}", f),
+                    _ => stmt_kind(t),
+                },
+                None => st.op_name().to_string(),
             };
             let ctx = case.steps.iter().take(i + 1).any(|s| s.h != 0 || s.sql().is_none());
             (if ctx { "api_sequence".to_string() } else { st.entry().to_string() }, kind, i)
@@ -4732,17 +4914,24 @@ fn bump(r: &std::sync::Mutex<TaskResults>, k: &str) {
     *r.lock().unwrap().counters.entry(k.to_string()).or_insert(0) += 1;
 }
 
-fn investigate_death(run: &OneRunner, case: Case, class: String, label: String, stderr: Vec<String>, prov_key: String, res: &std::sync::Mutex<TaskResults>, env_tier: &str, seed: u64) {
+fn investigate_death(run: &OneRunner, case: Case, class: String, label: String, stderr: Vec<String>, prov_key: String, res: &std::sync::Mutex<TaskResults>, env_tier: &str, seed: u64, seen_alone: bool) {
     let same = |r: &OneResult| -> Option<usize> {
         match r {
             OneResult::Died(c, l, _) if *c == class => Some(label_step(l).unwrap_or(0)),
+            // killed at the CPU limit on its way to the allocation failure
+            OneResult::Expired(l, _, false, rss) if class == "alloc_abort" && *rss >= BLOWUP_RSS => Some(label_step(l).unwrap_or(0)),
             _ => None,
         }
     };
-    // 1. re-run alone
-    let first = run.run(&case, SOFT_CPU_S, 90.0);
-    let confirmed = same(&first).is_some();
-    let (mut entry, kind, step) = attribute(&case, &label);
+    // 1. re-run alone (a slow blow-up gets the hard limit)
+    let no_time = !seen_alone && run.out_of_time();
+    let seen_alone = seen_alone || no_time; // the death itself is a fact; without time it is reported unshrunk
+    let mut first = if seen_alone { OneResult::Spawn("(not re-run)".into()) } else { run.run(&case, SOFT_CPU_S, SOFT_BLOCKED_S * 2.0) };
+    if matches!(first, OneResult::Expired(..)) && same(&first).is_none() && !run.out_of_time() {
+        first = run.run(&case, HARD_CPU_S, HARD_BLOCKED_S);
+    }
+    let confirmed = seen_alone || same(&first).is_some();
+    let (mut entry, kind, step) = attribute(&case, &label, class == "alloc_abort");
     if !confirmed {
         bump(res, "process_deaths_not_reproduced_alone");
         if class == "SIGKILL" {
@@ -4759,12 +4948,12 @@ fn investigate_death(run: &OneRunner, case: Case, class: String, label: String, 
     // 2. canonical entry: the call alone, then through execute
     let mut cur = case.clone();
     let mut fs = step.min(cur.steps.len().saturating_sub(1));
-    if entry == "api_sequence" && cur.steps.get(fs).map(|s| s.sql().is_some()).unwrap_or(false) {
+    if entry == "api_sequence" && !run.out_of_time() && cur.steps.get(fs).map(|s| s.sql().is_some()).unwrap_or(false) {
         let mut c = cur.clone();
         let mut s = cur.steps[fs].clone();
         s.h = 0;
         c.steps = vec![s];
-        if same(&run.run(&c, SOFT_CPU_S, 90.0)).is_some() {
+        if same(&run.run(&c, SOFT_CPU_S, SOFT_BLOCKED_S * 2.0)).is_some() {
             entry = c.steps[0].entry().to_string();
             cur = c;
             fs = 0;
@@ -4773,7 +4962,7 @@ fn investigate_death(run: &OneRunner, case: Case, class: String, label: String, 
     if entry != "api_sequence" && entry != "execute" {
         let f = Failure { step: fs, sub: String::new(), entry: entry.clone(), kind: kind.clone(), site: String::new(), msg: String::new(), in_thread: false };
         for (c, name) in entry_candidates(&cur, &f) {
-            if same(&run.run(&c, SOFT_CPU_S, 90.0)).is_some() {
+            if same(&run.run(&c, SOFT_CPU_S, SOFT_BLOCKED_S * 2.0)).is_some() {
                 entry = name.to_string();
                 cur = c;
                 break;
@@ -4781,13 +4970,18 @@ fn investigate_death(run: &OneRunner, case: Case, class: String, label: String, 
         }
     }
     // 3. shrink (one child process per candidate)
-    let mut test = |c: &Case| -> Option<usize> { same(&run.run(c, SOFT_CPU_S, 90.0)) };
+    let mut test = |c: &Case| -> Option<usize> {
+        if run.out_of_time() {
+            return None;
+        }
+        same(&run.run(c, SOFT_CPU_S, SOFT_BLOCKED_S * 2.0))
+    };
     let (min, used) = shrink_with(&cur, fs, 36, &mut test);
     let sig = signature(&entry, &kind, &format!("abort:{}", class));
     let detail = json!({
         "minimized": {"case": min.to_json(), "shrink_runs": used},
         "case": case.to_json(),
-        "observed": {"outcome": class, "at": label, "stderr_tail": stderr, "reproduced_when_run_alone": true},
+        "observed": {"outcome": class, "at": label, "stderr_tail": stderr, "reproduced_when_run_alone": if no_time { json!("not re-run (wall budget of the tier used up)") } else { json!(true) }},
         "child_stack_bytes": CHILD_STACK, "child_rlimit_as": CHILD_AS_LIMIT,
         "replay": format!("tv C22 --tier {} --seed {} child {} {} 1 /verif/scratch/c22-replay", env_tier, seed, case.unit, case.idx),
     });
@@ -4795,14 +4989,19 @@ fn investigate_death(run: &OneRunner, case: Case, class: String, label: String, 
 }
 
 fn investigate_hang(run: &OneRunner, case: Case, label: String, prov_key: String, res: &std::sync::Mutex<TaskResults>, env_tier: &str, seed: u64) {
-    let r = run.run(&case, HARD_CPU_S, 400.0);
+    let r = run.run(&case, HARD_CPU_S, HARD_BLOCKED_S);
     match r {
         OneResult::Finished(v, wall) => {
             bump(res, "soft_deadline_cases_that_finished_alone");
             res.lock().unwrap().notes.push(json!({"slow_case_finished_alone": {"unit": case.unit, "idx": case.idx, "label": label, "wall_s": wall, "first_sql": case.steps.first().and_then(|s| s.sql()).map(|t| t.render().chars().take(300).collect::<String>())}}));
         }
-        OneResult::Expired(l2, burned) => {
-            let (mut entry, kind, step) = attribute(&case, &l2);
+        OneResult::Expired(l2, burned, false, rss) if rss >= BLOWUP_RSS => {
+            // CPU limit reached with > 1 GiB resident: a memory blow-up, not a loop that makes no progress
+            bump(res, "cpu_limit_reached_during_memory_blowup");
+            investigate_death(run, case, "alloc_abort".into(), l2, vec![format!("killed after {:.0} CPU-s with {} MiB resident (RLIMIT_AS {} MiB not reached yet)", burned, rss >> 20, CHILD_AS_LIMIT >> 20)], prov_key, res, env_tier, seed, true);
+        }
+        OneResult::Expired(l2, burned, blocked, _rss) => {
+            let (mut entry, kind, step) = attribute(&case, &l2, false);
             // minimal form: the call alone, with the soft limit only (each attempt is expensive)
             let mut min = None;
             if case.steps.len() > 1 && step < case.steps.len() && case.steps[step].sql().is_some() {
@@ -4810,7 +5009,7 @@ fn investigate_hang(run: &OneRunner, case: Case, label: String, prov_key: String
                 let mut s = case.steps[step].clone();
                 s.h = 0;
                 c.steps = vec![s];
-                if let OneResult::Expired(..) = run.run(&c, SOFT_CPU_S, 120.0) {
+                if let OneResult::Expired(..) = run.run(&c, SOFT_CPU_S, SOFT_BLOCKED_S * 2.0) {
                     entry = c.steps[0].entry().to_string();
                     min = Some(c);
                 }
@@ -4818,14 +5017,14 @@ fn investigate_hang(run: &OneRunner, case: Case, label: String, prov_key: String
             let sig = signature(&entry, &kind, "hang");
             let detail = json!({
                 "case": case.to_json(), "minimized": min.map(|m| json!({"case": m.to_json(), "note": "the call alone also exceeds the soft limit"})),
-                "observed": {"outcome": "hang", "at": l2, "cpu_seconds_burned_inside_the_call": burned, "first_stage_limit_cpu_s": SOFT_CPU_S, "second_stage_limit_cpu_s": HARD_CPU_S, "wall_fallback_s": 400},
+                "observed": {"outcome": if blocked { "hang (blocked: every thread of the worker asleep, no CPU consumed -- a lock nobody will release)" } else { "hang (CPU bound)" }, "at": l2, "seconds": burned, "first_stage_limits": {"cpu_s": SOFT_CPU_S, "blocked_s": SOFT_BLOCKED_S}, "second_stage_limits_run_alone": {"cpu_s": HARD_CPU_S, "blocked_s": HARD_BLOCKED_S}},
                 "replay": format!("tv C22 --tier {} --seed {} child {} {} 1 /verif/scratch/c22-replay", env_tier, seed, case.unit, case.idx),
             });
             res.lock().unwrap().findings.push((sig, "terminates".into(), detail, prov_key));
         }
         OneResult::Died(class, l2, stderr) => {
             // it did not hang alone but died: treat as a death (confirmed by this very run)
-            investigate_death(run, case, class, l2, stderr, prov_key, res, env_tier, seed);
+            investigate_death(run, case, class, l2, stderr, prov_key, res, env_tier, seed, true);
         }
         OneResult::Spawn(e) => {
             res.lock().unwrap().notes.push(json!({"hang_confirmation_failed_to_run": e}));
@@ -4845,14 +5044,14 @@ struct UnitPlan {
 }
 
 const PLAN: &[UnitPlan] = &[
-    UnitPlan { name: "gram", quick: 9000, thorough: 110_000, chunk_quick: 500, chunk_thorough: 2500 },
-    UnitPlan { name: "func", quick: 3500, thorough: 40_000, chunk_quick: 350, chunk_thorough: 2000 },
-    UnitPlan { name: "deep", quick: 460, thorough: 2760, chunk_quick: 46, chunk_thorough: 230 },
-    UnitPlan { name: "huge", quick: 360, thorough: 3000, chunk_quick: 60, chunk_thorough: 300 },
-    UnitPlan { name: "mut", quick: 6000, thorough: 80_000, chunk_quick: 500, chunk_thorough: 2500 },
-    UnitPlan { name: "bytes", quick: 4000, thorough: 50_000, chunk_quick: 500, chunk_thorough: 2500 },
-    UnitPlan { name: "params", quick: 3000, thorough: 40_000, chunk_quick: 300, chunk_thorough: 2000 },
-    UnitPlan { name: "api", quick: 1200, thorough: 16_000, chunk_quick: 150, chunk_thorough: 1000 },
+    UnitPlan { name: "gram", quick: 2600, thorough: 36_000, chunk_quick: 130, chunk_thorough: 600 },
+    UnitPlan { name: "func", quick: 1330, thorough: 13_300, chunk_quick: 95, chunk_thorough: 475 },
+    UnitPlan { name: "deep", quick: 230, thorough: 1380, chunk_quick: 46, chunk_thorough: 138 },
+    UnitPlan { name: "huge", quick: 240, thorough: 1800, chunk_quick: 60, chunk_thorough: 180 },
+    UnitPlan { name: "mut", quick: 1700, thorough: 26_000, chunk_quick: 100, chunk_thorough: 500 },
+    UnitPlan { name: "bytes", quick: 900, thorough: 12_000, chunk_quick: 100, chunk_thorough: 500 },
+    UnitPlan { name: "params", quick: 1000, thorough: 14_000, chunk_quick: 100, chunk_thorough: 500 },
+    UnitPlan { name: "api", quick: 500, thorough: 7_000, chunk_quick: 50, chunk_thorough: 250 },
 ];
 
 struct Job {
@@ -4866,9 +5065,7 @@ struct Running {
     job: Job,
     child: std::process::Child,
     dir: PathBuf,
-    last: (u64, u64),
-    last_change: std::time::Instant,
-    cpu_mark: f64,
+    watch: Watch,
 }
 
 fn parent_main(a: &Args) -> i32 {
@@ -4889,6 +5086,11 @@ fn parent_main(a: &Args) -> i32 {
     let budget_s: u64 = std::env::var("TV_C22_BUDGET_S").ok().and_then(|s| s.parse().ok()).unwrap_or(if quick { 62 } else { 540 });
     let root = PathBuf::from(format!("{}/scratch/c22-{}", report::VERIF_DIR, std::process::id()));
     fresh_dir(&root);
+    sweep_stale_work_roots();
+    let work_root = work_root_for(std::process::id());
+    fresh_dir(&work_root);
+    std::env::set_var("TV_C22_WORK_ROOT", &work_root);
+    ctx.extra.insert("work_root".into(), json!(work_root.to_string_lossy()));
     let exe = std::env::current_exe().expect("current_exe");
     let only: Option<Vec<String>> = std::env::var("TV_C22_UNITS").ok().map(|s| s.split(',').map(|x| x.to_string()).collect());
     let scale: f64 = std::env::var("TV_C22_SCALE").ok().and_then(|s| s.parse().ok()).unwrap_or(1.0);
@@ -4934,7 +5136,7 @@ fn parent_main(a: &Args) -> i32 {
             }
         }
     }
-    let penv = make_env(a, &root, &root.join("parent-work"));
+    let penv = make_env(a, &root, &work_root.join("parent-work"));
     ctx.extra.insert("harvested_test_sql".into(), json!({"files": penv.corpus.files.len(), "statements": penv.corpus.total, "distinct": penv.corpus.distinct}));
     if penv.corpus.total < 100 {
         ctx.inconclusive(&format!("only {} SQL literals harvested from /repo/tests", penv.corpus.total));
@@ -4984,7 +5186,9 @@ fn parent_main(a: &Args) -> i32 {
     let max_restarts: u32 = if quick { 30 } else { 200 };
 
     // investigation workers
-    let runner = Arc::new(OneRunner { exe: exe.clone(), root: root.clone(), tier: a.tier.clone(), seed: a.seed, counter: AtomicU64::new(0) });
+    // wall budget of the whole run: quick <= 90 s, thorough <= 12 min
+    let stop_at = t0 + Duration::from_secs(if quick { 82 } else { 690 });
+    let runner = Arc::new(OneRunner { exe: exe.clone(), root: root.clone(), tier: a.tier.clone(), seed: a.seed, counter: AtomicU64::new(0), stop_at });
     let results = Arc::new(Mutex::new(TaskResults::default()));
     let (tx, rx) = mpsc::channel::<Task>();
     let rx = Arc::new(Mutex::new(rx));
@@ -4997,7 +5201,7 @@ fn parent_main(a: &Args) -> i32 {
                 Err(_) => break,
             };
             match t {
-                Task::Death { case, class, label, stderr, prov_key } => investigate_death(&runner, case, class, label, stderr, prov_key, &results, &tier, seed),
+                Task::Death { case, class, label, stderr, prov_key } => investigate_death(&runner, case, class, label, stderr, prov_key, &results, &tier, seed, false),
                 Task::Hang { case, label, prov_key } => investigate_hang(&runner, case, label, prov_key, &results, &tier, seed),
             }
         }));
@@ -5006,6 +5210,7 @@ fn parent_main(a: &Args) -> i32 {
     let mut prov_counts: BTreeMap<String, u64> = BTreeMap::new();
     let mut hang_tasks = 0u32;
     let mut death_tasks = 0u32;
+    let mut suspects: Vec<Value> = vec![];
 
     let mut running: Vec<Running> = vec![];
     let mut jobno = 0u64;
@@ -5041,7 +5246,7 @@ fn parent_main(a: &Args) -> i32 {
                 .stderr(Stdio::from(errf))
                 .spawn()
                 .expect("spawn child");
-            running.push(Running { job, child, dir, last: (u64::MAX, u64::MAX), last_change: Instant::now(), cpu_mark: 0.0 });
+            running.push(Running { job, child, dir, watch: Watch::new() });
         }
         if running.is_empty() && (queue.is_empty() || expired) {
             break;
@@ -5049,21 +5254,17 @@ fn parent_main(a: &Args) -> i32 {
         let mut i = 0;
         while i < running.len() {
             let mut finished: Option<(Option<std::process::ExitStatus>, bool)> = None;
+            let mut was_blocked = false;
             match running[i].child.try_wait() {
                 Ok(Some(st)) => finished = Some((Some(st), false)),
                 Ok(None) => {
                     let bb = read_blackbox(&running[i].dir.join("bb"));
-                    let cur = bb.as_ref().map(|b| (b.0, b.1)).unwrap_or((u64::MAX, 0));
-                    if cur != running[i].last {
-                        running[i].last = cur;
-                        running[i].last_change = Instant::now();
-                        running[i].cpu_mark = proc_cpu_s(running[i].child.id()).unwrap_or(0.0);
-                    }
                     let symbolizing = bb.as_ref().map(|b| b.4).unwrap_or(false);
                     let limit = if symbolizing { 90.0 } else { SOFT_CPU_S };
-                    let stalled = running[i].last_change.elapsed();
-                    let burned = if stalled > Duration::from_secs(2) { proc_cpu_s(running[i].child.id()).map(|c| c - running[i].cpu_mark).unwrap_or(0.0) } else { 0.0 };
-                    if burned > limit || stalled > Duration::from_secs(240) {
+                    let pid = running[i].child.id();
+                    let verdict = running[i].watch.poll(pid, &bb, limit, SOFT_BLOCKED_S);
+                    if !matches!(verdict, Verdict::Fine) {
+                        was_blocked = matches!(verdict, Verdict::Blocked(_));
                         let _ = running[i].child.kill();
                         let st = running[i].child.wait().ok();
                         finished = Some((st, true));
@@ -5106,14 +5307,21 @@ fn parent_main(a: &Args) -> i32 {
                             ctx.count(&format!("worker_lost_during_{}", label), 1);
                         } else {
                             let case = gen_case(&penv, uname, idx);
-                            let (entry, kind, _) = attribute(&case, &label);
+                            let (entry, kind, _) = attribute(&case, &label, class == "alloc_abort");
                             let prov_key = format!("{}/{}/{}", entry, kind, if soft_expired { "hang".to_string() } else { format!("abort:{}", class) });
                             let n = prov_counts.entry(prov_key.clone()).or_insert(0);
                             *n += 1;
                             ctx.nontrivial(fnv(prov_key.as_bytes()) ^ idx);
                             if soft_expired {
                                 ua.soft_expiries += 1;
-                                if *n <= 2 && hang_tasks < 8 {
+                                // the second stage needs up to 40 s (blocked) / 120 CPU-s (busy): only started if it fits the wall budget
+                                let needed = Duration::from_secs(if was_blocked { 44 } else { 135 });
+                                if Instant::now() + needed > stop_at {
+                                    ctx.count(if was_blocked { "soft_deadline_blocked_cases_not_rerun_no_time_left" } else { "soft_deadline_busy_cases_not_rerun_no_time_left" }, 1);
+                                    if suspects.len() < 6 {
+                                        suspects.push(json!({"unit": uname, "idx": idx, "at": label, "blocked": was_blocked, "entry": entry, "kind": kind, "sql": case.steps.get(label_step(&label).unwrap_or(0)).and_then(|s| s.sql()).map(|t| t.render().chars().take(300).collect::<String>())}));
+                                    }
+                                } else if *n <= 2 && hang_tasks < 8 {
                                     hang_tasks += 1;
                                     let _ = tx.send(Task::Hang { case, label: label.clone(), prov_key });
                                 } else {
@@ -5188,6 +5396,9 @@ fn parent_main(a: &Args) -> i32 {
     for (k, n) in tr.counters {
         ctx.count(&k, n);
     }
+    if !suspects.is_empty() {
+        ctx.extra.insert("hang_suspects_first_stage_only".into(), json!({"note": "exceeded the first-stage limit; the second stage (run alone, 120 CPU-s / 40 s blocked) did not fit into this tier's wall budget, so nothing is reported -- the thorough tier decides these", "cases": suspects}));
+    }
     if !tr.notes.is_empty() {
         ctx.extra.insert("notes".into(), Value::Array(tr.notes.into_iter().take(12).collect()));
     }
@@ -5204,7 +5415,7 @@ fn parent_main(a: &Args) -> i32 {
         }
     }
     ctx.assumptions.push("workers run cases on a thread with an 8 MiB stack under RLIMIT_AS = 4 GiB; a stack overflow or allocation failure under these limits is reported (abort:stack_overflow / abort:alloc_abort)".into());
-    ctx.assumptions.push("hang rule: a call that burns 20 CPU-s (all threads of the worker; wall fallback 240 s without heartbeat) is abandoned and its case re-run alone with a 120 CPU-s limit (wall fallback 400 s); only the second expiry is reported as <...>/hang. Row-combination budget of generated statements: product of the cardinalities of all table references <= 50000; size arguments of string functions are <= 300 or >= 2^40 (unsatisfiable)".into());
+    ctx.assumptions.push("hang rule: a call that burns 20 CPU-s (all threads of the worker), or during which every thread of the worker sleeps for 8 s without consuming CPU (blocked on a lock: thread states read from /proc), is abandoned and its case re-run alone with limits of 120 CPU-s / 40 s blocked; only the second expiry is reported as <...>/hang. Row-combination budget of generated statements: product of the cardinalities of all table references <= 50000; size arguments of string functions are <= 300 or >= 2^40 (unsatisfiable)".into());
     ctx.assumptions.push("the harness profile has overflow-checks and debug-assertions on: signatures listed under signatures_depending_on_overflow_checks_or_debug_assertions are panics only in such a build (a release build wraps / skips the assertion)".into());
     ctx.assumptions.push("OwnedValue::Jsonb / ToastPointer parameters carry internal encodings; only empty or tiny payloads are passed (arbitrary bytes there are C23's domain)".into());
     ctx.exhaustive = Some(false);
@@ -5220,6 +5431,7 @@ fn parent_main(a: &Args) -> i32 {
     }
     agg.finish(&mut ctx);
     let _ = std::fs::remove_dir_all(&root);
+    let _ = std::fs::remove_dir_all(&work_root);
     ctx.finish()
 }
 
@@ -5255,8 +5467,12 @@ fn replay_main(a: &Args, path: &str) -> i32 {
         let _ = std::fs::remove_dir_all(&root);
         return 2;
     }
-    let runner = OneRunner { exe: std::env::current_exe().expect("exe"), root: root.clone(), tier: a.tier.clone(), seed: a.seed, counter: AtomicU64::new(0) };
-    let r = runner.run(&case, HARD_CPU_S, 400.0);
+    let work_root = work_root_for(std::process::id());
+    fresh_dir(&work_root);
+    std::env::set_var("TV_C22_WORK_ROOT", &work_root);
+    let runner = OneRunner { exe: std::env::current_exe().expect("exe"), root: root.clone(), tier: a.tier.clone(), seed: a.seed, counter: AtomicU64::new(0), stop_at: std::time::Instant::now() + std::time::Duration::from_secs(3600) };
+    let r = runner.run(&case, HARD_CPU_S, HARD_BLOCKED_S);
+    let _ = std::fs::remove_dir_all(&work_root);
     let code = match &r {
         OneResult::Finished(v, wall) => {
             println!("returned in {:.2}s: {}", wall, serde_json::to_string_pretty(v).unwrap_or_default());
@@ -5272,8 +5488,8 @@ fn replay_main(a: &Args, path: &str) -> i32 {
             println!("VIOLATION property={} replay={}", PROP, path);
             1
         }
-        OneResult::Expired(l, b) => {
-            println!("hang: {:.0} CPU-s burned at step {}", b, l);
+        OneResult::Expired(l, b, blocked, rss) => {
+            println!("hang: {:.0} {} at step {} ({} MiB resident)", b, if *blocked { "s with every thread asleep (deadlock)" } else { "CPU-s burned" }, l, rss >> 20);
             println!("VIOLATION property={} replay={}", PROP, path);
             1
         }
